@@ -11,7 +11,7 @@ CHECKS = {
    note="ids and function names are opaque labels announced by the driver; no fault injection (record-before-emit on a failing writer is C10's ground) and no goroutines (C14); one class is never both enabled and disabled in one expression. Two genuine defects fixed (container forms handled for names but not rules, and vice versa)."),
  "C13": dict(category="exploration", design_ref="DESIGN.md §4 C13", engine="corpus",
    technique="runtime monitoring: one compiled call-tree interpreter renders call trees given as data; a reference call-tree semantics in the harness (a callee sees exactly its call-site block, rendered where and as often as its slot occurs) predicts the marker structure; exact comparison on the HTML5 token stream",
-   text="exploration: every forest with <=3 nodes over 26 call kinds (generated callees: slot / ignore / twice / pass-on / inner / after and the legacy call syntax; OnceHandle.Once, Once(WithComponent), Flush, Join, function components reading / ignoring children, WithChildren from code; each with and without a block), <=4 nodes over 18 kinds (thorough), plus 100k (4M) seeded random trees of up to 34 nodes biased to an unconsumed block followed by a slot-bearing sibling or descendant.",
+   text="exploration: every forest with <=3 nodes over 36 call kinds (generated callees: slot / ignore / twice / pass-on / inner / after and the legacy call syntax; OnceHandle.Once, Once(WithComponent), Flush, Join, function components reading / ignoring children, function components that capture their children into a buffer of their own (written once / twice / discarded), hand-written and generated capture layers around a slot callee, WithChildren from code; each with and without a block), <=4 nodes over 18 kinds (thorough), plus 100k (4M) seeded random trees of up to 34 nodes biased to an unconsumed block followed by a slot-bearing sibling or descendant.",
    note="Hand-written function components follow the documented GetChildren + ClearChildren protocol; nesting beyond 3 block levels goes through a generated dispatcher; a runaway render is cut by an output limit of 8x the expected size and counted as a violation. One genuine defect fixed (children stored in the shared context value leaked through Once / Flush / Join / function components)."),
  "C18": dict(category="exploration", design_ref="DESIGN.md §4 C18", engine="in-proc",
    technique="runtime monitoring: independent base-protocol frame parser as wire tap and malformed-input oracle, chunk-controlled readers, token/id matching of every Call return, response-lost watchdog, pending-map and goroutine-leak observation; concurrent sessions run in race-instrumented child processes (GORACE log parsed, races attributed to templ code)",
